@@ -17,7 +17,7 @@ static bool ref_equal(const ref::RUri &a, const ref::RUri &b) {
     return a.segments() == b.segments();
 }
 static std::vector<Str> family() {
-    std::vector<const char *> scheme = { 0, "s", "t" }, auth = { 0, "", "h", "g", "u@h", "@h", "h:80", "h:", "1.2.3.4", "1.2.3.5", "[::1]", "[0:0:0:0:0:0:0:1]", "[::2]", "[v1.a]", "[v1.b]", "[V1.a]" },
+    std::vector<const char *> scheme = { 0, "s", "t" }, auth = { 0, "", "h", "g", "u@h", "@h", "h:80", "h:", "1.2.3.4", "1.2.3.5", "[::1]", "[0:0:0:0:0:0:0:1]", "[::2]", "[v1.a]", "[v1.b]", "[V1.a]", "v1.a", "1.2.3.04", "::1" },
         path = { "", "/", "a", "/a", "a/", "/a/", "a/b", "/a/b", "//", "/a//", "b", "/b" }, query = { 0, "", "q" }, frag = { 0, "", "f" };
     std::vector<Str> v; std::set<Str> seen;
     for (auto sc : scheme) for (auto a : auth) for (auto p : path) for (auto q : query) for (auto f : frag) {
